@@ -42,7 +42,7 @@ def spd_cases(chk):
         S1, S2 = gen.qsm_impl(s1), gen.qsm_impl(s2)
         out.append(("dominant", S1))
         out.append(("sum", S1 + S2))
-        out.append(("inverse", S1.inv()))
+        out.append(("inverse", S1.inv(), np.linalg.inv(gen.den_oracle(s1))))   # with the matrix it is supposed to be: the dense inverse
         sq = well_conditioned(rng, "Square", n, 1, 2)
         out.append(("gram", gen.qsm_impl(sq).gram()))
         out.append(("hadamard", S1 * S2))
@@ -62,7 +62,7 @@ def run(chk):
     exprs, expect = [], []
     corr_bad, oracle_bad = [], []
     hist, distinct, maxdev, conds = {}, set(), 0.0, []
-    for how, A in cases:
+    for how, A, *truth in cases:
         s = gen.impl_to_spec(A)
         if s["kind"] != "Symm":
             oracle_bad.append(dict(op=how, observed=s["kind"], expected="Symm"))
@@ -84,6 +84,10 @@ def run(chk):
         want = np.linalg.cholesky((D + D.T) / 2)
         ok1, _ = close(Ld, want, 1e-7, rel=True)
         ok2, _ = close(Ld @ Ld.T, D, 1e-8, rel=True)
+        if truth:   # the matrix was PRODUCED by an operation (inversion): L L^T must be the matrix that operation should have produced
+            okt, _ = close(Ld @ Ld.T, truth[0], 1e-7, rel=True)
+            if not okt:
+                oracle_bad.append(dict(case, what="L L^T vs the dense matrix the producing operation should give", expected=np.asarray(truth[0]).tolist(), observed=(Ld @ Ld.T).tolist()))
         tri = np.allclose(np.triu(Ld, 1), 0)
         pos = bool(np.all(np.diag(Ld) > 0))
         same_order = meta[2] == s["l"]["m"] and meta[1] == KIDX["Lower"]
